@@ -35,14 +35,23 @@ type Config struct {
 
 // ReplayFile is the self-describing reproduction of one violating run.
 type ReplayFile struct {
-	Property  string      `json:"property"`
-	Class     string      `json:"class"`
-	Detail    string      `json:"detail"`
-	VerifSeed uint64      `json:"verif_seed"`
-	RunIndex  int         `json:"run_index"`
-	RunSeed   uint64      `json:"run_seed"`
-	Tier      string      `json:"tier"`
-	Tape      []uint32    `json:"tape"`
+	Property  string   `json:"property"`
+	Class     string   `json:"class"`
+	Detail    string   `json:"detail"`
+	VerifSeed uint64   `json:"verif_seed"`
+	RunIndex  int      `json:"run_index"`
+	RunSeed   uint64   `json:"run_seed"`
+	Tier      string   `json:"tier"`
+	Tape      []uint32 `json:"tape"`
+	// Prefix lists run indices (of the same VERIF_SEED) that are executed, in this
+	// order and in the same process, before the tape: needed only when the
+	// violation depends on state that earlier runs left behind in the process.
+	Prefix    []int       `json:"prefix_runs,omitempty"`
+	PrefixWhy string      `json:"prefix_note,omitempty"`
+	Worker    int         `json:"explored_by_worker"`
+	NWorkers  int         `json:"explored_with_workers"`
+	MaxProcs  int         `json:"explored_at_gomaxprocs"`
+	TapeFull  []uint32    `json:"tape_before_shrinking,omitempty"`
 	TapeOrig  int         `json:"tape_len_before_shrinking"`
 	ShrinkRun int         `json:"shrink_executions"`
 	Findings  []string    `json:"open_findings_assumed"`
@@ -54,22 +63,22 @@ type ReplayFile struct {
 
 // Summary is what an explore worker reports back.
 type Summary struct {
-	Worker      int              `json:"worker"`
-	MaxProcs    int              `json:"maxprocs"`
-	Runs        int              `json:"runs"`
-	Steps       int64            `json:"steps"`
-	SimTimeNs   int64            `json:"sim_time_ns"`
-	WallS       float64          `json:"wall_s"`
-	Counters    map[string]int64 `json:"counters"`
-	Strategies  map[string]int64 `json:"strategies"`
-	Shapes      []uint64         `json:"shapes"`      // distinct hashes of (scenario shape, schedule) among non-trivial runs
-	Schedules   []uint64         `json:"schedules"`   // distinct schedule/event-log hashes
-	Nontrivial  int              `json:"nontrivial"`
-	Known       map[string]int64 `json:"known"`       // finding id -> runs whose only deviation was that finding
+	Worker      int               `json:"worker"`
+	MaxProcs    int               `json:"maxprocs"`
+	Runs        int               `json:"runs"`
+	Steps       int64             `json:"steps"`
+	SimTimeNs   int64             `json:"sim_time_ns"`
+	WallS       float64           `json:"wall_s"`
+	Counters    map[string]int64  `json:"counters"`
+	Strategies  map[string]int64  `json:"strategies"`
+	Shapes      []uint64          `json:"shapes"`    // distinct hashes of (scenario shape, schedule) among non-trivial runs
+	Schedules   []uint64          `json:"schedules"` // distinct schedule/event-log hashes
+	Nontrivial  int               `json:"nontrivial"`
+	Known       map[string]int64  `json:"known"` // finding id -> runs whose only deviation was that finding
 	KnownDetail map[string]string `json:"known_detail"`
-	Violations  []string         `json:"violations"`  // replay file paths
-	Machinery   []string         `json:"machinery"`
-	Samples     []interface{}    `json:"samples"`
+	Violations  []string          `json:"violations"` // replay file paths
+	Machinery   []string          `json:"machinery"`
+	Samples     []interface{}     `json:"samples"`
 	Determinism map[string]string `json:"determinism,omitempty"` // index -> digest
 	Rule        string            `json:"rule"`
 	RealCode    []string          `json:"real_code"`
@@ -133,6 +142,12 @@ func TestWorker(t *testing.T) {
 		var rf ReplayFile
 		if err := json.Unmarshal(b, &rf); err != nil {
 			t.Fatal(err)
+		}
+		cfg.VerifSeed = rf.VerifSeed
+		for _, pi := range rf.Prefix {
+			pc := rc(pi, false)
+			pc.VerifSeed, pc.Tier = rf.VerifSeed, rf.Tier
+			p.Run(t, core.NewTape(runSeed(&cfg, pi)), pc)
 		}
 		c := rc(rf.RunIndex, true)
 		c.VerifSeed = rf.VerifSeed
@@ -241,7 +256,7 @@ func TestWorker(t *testing.T) {
 			}
 			sort.Strings(fl)
 			rf := ReplayFile{Property: cfg.Property, Class: final.Class, Detail: final.Detail, VerifSeed: cfg.VerifSeed, RunIndex: idx, RunSeed: seed, Tier: cfg.Tier,
-				Tape: min, TapeOrig: len(orig), ShrinkRun: execs, Findings: fl, Scenario: final.Scenario, Schedule: final.Trace, Strategy: final.Strategy, LogHash: final.LogHash}
+				Tape: min, TapeFull: orig, Worker: cfg.Worker, NWorkers: cfg.NWorkers, MaxProcs: cfg.MaxProcs, TapeOrig: len(orig), ShrinkRun: execs, Findings: fl, Scenario: final.Scenario, Schedule: final.Trace, Strategy: final.Strategy, LogHash: final.LogHash}
 			rb, _ := json.MarshalIndent(rf, "", " ")
 			os.MkdirAll(cfg.ReplayDir, 0o755)
 			rp := filepath.Join(cfg.ReplayDir, fmt.Sprintf("%s-seed%d-run%d.json", cfg.Property, cfg.VerifSeed, idx))
